@@ -18,7 +18,7 @@ def states_matrix(ode) -> sympy.Matrix:
     return sympy.Matrix([state.symbol for state in ode.sorted_states()])
 
 
-def rhs_matrix(ode, max_tries: int = 20) -> sympy.Matrix:
+def rhs_matrix(ode, max_tries: int | None = None) -> sympy.Matrix:
     """Return a sympy matrix of the right hand side of the ODE
 
     Parameters
@@ -26,7 +26,8 @@ def rhs_matrix(ode, max_tries: int = 20) -> sympy.Matrix:
     ode : gotranx.ode.ODE
         The ODE
     max_tries : int, optional
-        Maximum number of tries to try to replace the symbols, by default 20
+        Maximum number of tries to try to replace the symbols, by default the number
+        of intermediates plus one (enough for any acyclic dependency depth)
 
     Returns
     -------
@@ -39,6 +40,8 @@ def rhs_matrix(ode, max_tries: int = 20) -> sympy.Matrix:
         If the maximum number of tries is reached
     """
     intermediates = {x.symbol: x.expr for x in ode.intermediates}
+    if max_tries is None:
+        max_tries = len(intermediates) + 1
     rhs = sympy.Matrix([state.expr for state in ode.sorted_state_derivatives()])
 
     num_tries = 0
